@@ -280,6 +280,11 @@ func (c *EvalCtx) eval(e Expr) Val {
 		case "-":
 			r := Val{K: KScalar, T: v.T, Sort: v.Sort, S: "(- " + v.S + ")"}
 			return r
+		case "*":
+			if et := boxElem(v.T); et != nil && v.K == KScalar {
+				return eng.loadField(c.p, c.snap(), v.S, typeKey(v.T), boxField, et)
+			}
+			c.fail("cannot dereference %s (only pointers to non-struct types)", e.X.String())
 		}
 	case *EBinary:
 		return c.evalBinary(e)
